@@ -257,9 +257,24 @@ func findContainments(fn *ssa.Function) []Containment {
 					if dc := callOf(canon(call.Call.Args[1])); dc != nil && isFunc(calleeObj(dc), "path/filepath", "Dir") {
 						dirOK = true
 					}
+					// what is joined onto the position is the link's target as written, not a path already made
+					// absolute from it (joining an absolute path only re-roots it: nothing climbs any more)
+					rawOK := true
+					if jc, ok := joined.(*ssa.Call); ok {
+						for _, a := range joinArgs(jc) {
+							if canon(a) == ssa.Value(rel) {
+								continue
+							}
+							if _, isPrm := canon(a).(*ssa.Parameter); !isPrm {
+								rawOK = false
+							}
+						}
+					}
 					switch {
 					case len(okE2) == 0:
 						k.Why = "error of filepath.Rel is not tested"
+					case !rawOK:
+						k.Why = "what is joined onto the link's directory is not the target as written (a parameter) but something computed from it: an absolute form never climbs, so the test is vacuous"
 					case !dirOK:
 						k.Why = "the target is joined onto the position of the link itself, not onto its directory (filepath.Rel(root, Dir(position))): one \"..\" too many is absorbed, so a top-level link ../<name of root>/f counts as inside"
 					case len(jnd) == 0:
